@@ -145,6 +145,10 @@ int c_var2h(int nvalvar, int nvalh,
             /* Loop */
             varindex++;
             if(varindex+1>=nvalvar) {
+                /* Last observation reached before the end of the period:
+                 * the period is not fully covered */
+                if(t2<end)
+                    miss=1;
                 break;
             }
 
